@@ -1,5 +1,6 @@
 import CantoVerif.Spec.Coinswap
 import CantoVerif.Proofs.CoinswapWF
+import CantoVerif.Spec.CoinswapExamples
 /-!
 # C09 — governance risk caps bound every pool interaction.
 
@@ -111,6 +112,14 @@ theorem add_caps {env : Env} {s s' : State} {m : MsgAdd} {r : Resp} (h : add env
 when it was created and is paired with the standard coin (`WF.counterNeStd`, maintained by `wf_step`). -/
 theorem pools_against_standard {env : Env} {s : State} (hW : WF env s) : ∀ p ∈ s.pools, p.counter ≠ s.std :=
   hW.counterNeStd
+
+
+/-! ## non-vacuity: each kind of message succeeds on a concrete non-trivial state -/
+
+example : (step exEnv exState exSell).toBool = true := by decide +kernel
+example : (step exEnv exState exBuy).toBool = true := by decide +kernel
+example : (step exEnv exState exAdd).toBool = true := by decide +kernel
+example : (step exEnv exState exRemove).toBool = true := by decide +kernel
 
 end Coinswap
 end CV
